@@ -40,8 +40,9 @@ def main():
             # show the smallest replay
             rd = os.path.join(d, 'out', 'replays', pid)
             if os.path.isdir(rd) and '--show' in sys.argv:
-                for f in sorted(os.listdir(rd))[:1]:
-                    print(open(os.path.join(rd, f)).read()[:1500])
+                for f in sorted(os.listdir(rd)):
+                    v = json.load(open(os.path.join(rd, f)))
+                    print('   >>', v['kind'], '|', json.dumps(v['case'])[:400], '| EXPECTED', json.dumps(v['expected'])[:300], '| OBSERVED', json.dumps(v['observed'])[:300])
     finally:
         shutil.rmtree(d, ignore_errors=True)
 
